@@ -88,6 +88,50 @@ def run_history(hist, dt=1.0, tau=3.0, A=0.7, duration=3.0, inplace=False, clear
     return None
 
 
+def scaled_history(hist, values, dt=1.0, tau=3.0, A=0.7, scale=-1.5, clear_at=None, keepshape=True):
+    """the four scaled / conditional trace reducers on two elements - element 0 follows `hist` (matching events with
+    observed `values`), element 1 NEVER matches - against closed forms over the events since the last clear:
+    nearest: (scale*x_last + A) * decay^age, 0 before the first event; cumulative: the sum over events"""
+    from inferno.observe import (ConditionalCumulativeTraceReducer, ConditionalNearestTraceReducer, ScaledCumulativeTraceReducer,
+                                 ScaledNearestTraceReducer)
+
+    crit = lambda x: x > 0.5  # noqa: E731
+    reds = {
+        "scaled_nearest": ScaledNearestTraceReducer(dt, tau, A, scale, crit),
+        "scaled_cumulative": ScaledCumulativeTraceReducer(dt, tau, A, scale, crit),
+        "conditional_nearest": ConditionalNearestTraceReducer(dt, tau, A, scale),
+        "conditional_cumulative": ConditionalCumulativeTraceReducer(dt, tau, A, scale),
+    }
+    since = []
+    inp = dict(hist=list(hist), values=list(values), dt=dt, tau=tau, A=A, scale=scale, clear_at=clear_at, keepshape=keepshape)
+    for step, (h, v) in enumerate(zip(hist, values)):
+        if clear_at is not None and step == clear_at:
+            for r in reds.values():
+                r.clear(keepshape=keepshape)
+            since = []
+        x0 = v if h else 0.25 * v  # a matching observation is > 0.5, a non-matching one <= 0.5 (values are in (0.5, 2])
+        since.append((h, x0))
+        obs = torch.tensor([x0, 0.125])
+        cond = torch.tensor([bool(h), False])
+        for k, r in reds.items():
+            if k.startswith("conditional"):
+                r(obs, cond)
+            else:
+                r(obs)
+        n = len(since) - 1
+        ev = [(f, xv) for f, (hh, xv) in enumerate(since) if hh]
+        near = 0.0 if not ev else (scale * ev[-1][1] + A) * math.exp(-(n - ev[-1][0]) * dt / tau)
+        cum = sum((scale * xv + A) * math.exp(-(n - f) * dt / tau) for f, xv in ev)
+        for k, r in reds.items():
+            got = r.peek()
+            e0 = near if k.endswith("nearest") else cum
+            if abs(float(got[0]) - e0) > 1e-5:
+                return {"what": f"C07/{k}/closed_form", "input": dict(inp, step=step), "expected": e0, "actual": float(got[0])}
+            if abs(float(got[1])) > 1e-7:
+                return {"what": f"C07/{k}/nonzero_before_the_first_event", "input": dict(inp, step=step), "expected": 0.0, "actual": float(got[1])}
+    return None
+
+
 def sweep(tier="quick", seed=0, unsupported=()):
     L = 5 if tier == "quick" else 7
     failures, cases = [], 0
@@ -107,7 +151,13 @@ def sweep(tier="quick", seed=0, unsupported=()):
         clears = tuple(sorted({rnd.randrange(1, n): rnd.random() < 0.5 for _ in range(2)}.items()))
         cases += 1
         add(run_history(hist, dt=rnd.choice([1.0, 0.5, 1.3]), tau=rnd.choice([2.0, 7.5]), duration=rnd.choice([0.0, 2.0, 3.9]), inplace=rnd.random() < 0.5, clears=clears))
-    return {"standins": [{"function": "6 reducer classes vs closed forms (sum over events, most recent event, elapsed time, identity, EMA, mean) incl. dump/view/clear", "domain": f"all boolean histories of length {L} x 3 (duration,inplace) configs + random histories with interleaved clear(keepshape T/F)", "cases": cases, "proved": False, "label": "bounded"}], "failures": failures}
+    for _ in range(30 if tier == "quick" else 200):
+        n = rnd.randint(3, 8)
+        hist = [rnd.random() < 0.4 for _ in range(n)]
+        vals = [rnd.choice([0.75, 1.0, 1.5, 2.0]) for _ in range(n)]
+        cases += 1
+        add(scaled_history(hist, vals, dt=rnd.choice([1.0, 0.5]), tau=rnd.choice([2.0, 7.5]), A=rnd.choice([0.7, -1.5]), scale=rnd.choice([-1.5, 0.5, 0.0]), clear_at=rnd.choice([None, 1, 2]), keepshape=rnd.random() < 0.5))
+    return {"standins": [{"function": "4 scaled / conditional trace reducers vs closed forms on a matching and a never-matching element (0 before the first event, also after clear); 6 reducer classes vs closed forms (sum over events, most recent event, elapsed time, identity, EMA, mean) incl. dump/view/clear", "domain": f"all boolean histories of length {L} x 3 (duration,inplace) configs + random histories with interleaved clear(keepshape T/F)", "cases": cases, "proved": False, "label": "bounded"}], "failures": failures}
 
 
 def replay(contract, label, model, note=""):
@@ -130,5 +180,8 @@ def replay(contract, label, model, note=""):
 
 def replay_native(rp):
     inp = rp["input"]
+    if "values" in inp:
+        f = scaled_history(inp["hist"], inp["values"], dt=inp["dt"], tau=inp["tau"], A=inp["A"], scale=inp["scale"], clear_at=inp.get("clear_at"), keepshape=inp.get("keepshape", True))
+        return {"reproduced": f is not None, "failure": f}
     f = run_history(inp["hist"], dt=inp.get("dt", 1.0), tau=inp.get("tau", 3.0), A=inp.get("A", 0.7), duration=inp.get("duration", 3.0), inplace=inp.get("inplace", False), clears=tuple(tuple(x) for x in inp.get("clears", [])))
     return {"reproduced": f is not None, "failure": f}
